@@ -24,6 +24,7 @@ from ..impl import crosscheck_adapter as ca
 from ..impl import refine_adapter as ra
 
 PROP = "C07"
+VARIANT = {"name": "asis"}  # which of the model's variants the implementation follows (detect_variant)
 INVALID_MASK = 963
 BAND = "confidence_from_left_right_consistency"
 
@@ -49,6 +50,27 @@ def add_failure(report, clause, trigger, case, impl, detail):
     n = sum(1 for f in report.failures if f["clause"] == clause and f["trigger"] == trigger)
     if n < 3:
         report.fail(clause, trigger, case, impl, detail)
+
+
+def detect_variant(report):
+    """The Lean model follows the code as it is ("asis") and also the two repairs of finding C07-F1
+    (proposed_fixes/C07-outside-right.diff -> "rule"; the one-character `|` repair -> "or").  One probe
+    decides which one the implementation under test is to be compared with: a valid pixel whose correspondent
+    is outside the right image and for which some d has round(dR(p+d)) = -d."""
+    probe = {"threshold": 1, "threshold_is_int": True, "dmin": -2, "dmax": 3, "offset": 0, "interval_dtype": "float",
+             "bands_a": 0, "disp_a": [[0, 0, 0, 3]], "mask_a": [[0, 0, 0, 0]], "disp_b": [[2, 2, 2, 2]],
+             "mask_b": [[0, 0, 0, 0]]}
+    impl = ca.run_check(probe)
+    name = "asis"
+    if impl["res"] == "ok":
+        name = {0: "asis", 256: "or", 512: "rule"}.get(impl["mask"][0][3], "asis")
+    VARIANT["name"] = name
+    report.notes.append(f"model variant compared with the implementation: {name}")
+    return name
+
+
+def extra_evidence():
+    return {"model_variant": VARIANT["name"]}
 
 
 def model_payload(case):
@@ -126,7 +148,7 @@ def check_outputs(ctx, report, case, impl, label, clause_prefix=None):
 
 def check_case(ctx, report, case, label, captured=None):
     impl = ca.run_check(case)
-    model = ctx.lean.call("C07.check", **model_payload(case))
+    model = ctx.lean.call("C07.check", variant=VARIANT["name"], **model_payload(case))
     n_pix = sum(len(r) for r in case["disp_a"])
     valid = sum(1 for row in case["mask_a"] for v in row if (v & INVALID_MASK) == 0)
     report.case(key=key_of(case), nontrivial=valid > 0,
@@ -168,7 +190,7 @@ def check_run_case(ctx, report, case, label):
                         "disp": lft["disp"], "mask": lft["mask"]},
                "right": {"threshold": case["threshold"], "dmin": rgt["dmin"], "dmax": rgt["dmax"], "offset": case["offset"],
                          "disp": rgt["disp"], "mask": rgt["mask"]}}
-    model = ctx.lean.call("C07.run", **payload)
+    model = ctx.lean.call("C07.run", variant=VARIANT["name"], **payload)
     report.case(key=key_of(case), nontrivial=True,
                 sample={"label": label, "shape": [len(lft["disp"]), len(lft["disp"][0])], "impl_res": impl["res"]})
     report.count("validation_run_cases")
@@ -357,6 +379,7 @@ def translator_cross_check(report, status):
 
 def run(ctx, report, status):
     translator_cross_check(report, status)
+    detect_variant(report)
     report.rule = (
         "one call of the real disparity_checking(A, B) per case, compared cell by cell (exactly) with the Lean model, the "
         "Lean specification evaluated on the implementation's output; small scope exhaustively (left rows over "
@@ -386,6 +409,7 @@ def search(ctx, report, status):
     larger random stream on the real code with the Lean specification as oracle; known findings are skipped."""
     known = {(k.get("clause"), k.get("trigger")) for k in core.load_known(PROP)}
     sub = core.Report(PROP, ctx.tier, ctx.seed)
+    detect_variant(sub)
 
     def first_unknown():
         for f in sub.failures:
@@ -420,6 +444,7 @@ def replay(ctx, report, path):
         data = json.load(f)
     case = data.get("input", data)
     case = {k: v for k, v in case.items() if k != "focus"}
+    detect_variant(report)
     if "left" in case:
         check_run_case(ctx, report, case, "replay")
     else:
